@@ -17,9 +17,9 @@ Proof.
   - apply format_uint_plain.
 Qed.
 
-Lemma toy_prs_finite : forall v b, toy_prs v = Some b -> fin b = true.
+Lemma toy_prs_finite : forall v b, not_special v = true -> toy_prs v = Some b -> fin b = true.
 Proof.
-  intros v b H. unfold toy_prs in H. destruct (all_digits v); [|discriminate].
+  intros v b _ H. unfold toy_prs in H. destruct (all_digits v); [|discriminate].
   destruct (fin (dec_value v 0)) eqn:E; [|discriminate]. inversion H; subst. exact E.
 Qed.
 
@@ -62,3 +62,42 @@ Example sample_round_trip :
   parse no_ud toy_prs false (write toy_fmt false sample_file) = OOk (norm_file toy_fmt false sample_file)
   /\ parse no_ud toy_prs true (write toy_fmt true sample_file) = OOk (norm_file toy_fmt true sample_file).
 Proof. split; vm_compute; reflexivity. Qed.
+
+(* ---- exact equality after a round trip fails in three ways (what [norm_file] identifies) ---- *)
+(* a second oracle: like the toy one, and "5.0" is the float with bit pattern 5 *)
+Definition toy_prs2 (v : str) : option N := if str_eqb v (s2l "5.0") then Some 5 else toy_prs v.
+
+Definition parse_text (s : string) : outcome := parse no_ud toy_prs2 false (s2l s).
+Definition reparse (o : outcome) : outcome :=
+  match o with OOk f => parse no_ud toy_prs2 false (write toy_fmt false f) | e => e end.
+
+Definition txt_empty_version : string := "VERSION """" NS_ : BS_: BU_:".
+Definition txt_no_header : string := "VERSION ""v""".
+Definition txt_float_literal : string := "VERSION ""v"" NS_ : BS_: BU_: BA_ ""x"" 5.0;".
+Definition underscore_str : str := s2l "_".
+
+(* 1. an empty version comes back as "_" (writer.go:82-85) *)
+Example version_exact_refuted :
+  exists f f', parse_text txt_empty_version = OOk f /\ reparse (OOk f) = OOk f' /\
+               f_version f = [] /\ f_version f' = underscore_str /\ f' <> f.
+Proof.
+  eexists; eexists. split; [vm_compute; reflexivity|]. split; [vm_compute; reflexivity|].
+  split; [reflexivity|]. split; [reflexivity|]. discriminate.
+Qed.
+
+(* 2. absent header sections come back filled with the writer's defaults *)
+Example header_exact_refuted :
+  exists f f', parse_text txt_no_header = OOk f /\ reparse (OOk f) = OOk f' /\
+               f_ns f = None /\ f_ns f' = Some new_symbols_values /\ f_bs f = None /\ f_bs f' <> None /\ f_bu f = None /\ f_bu f' = Some [].
+Proof.
+  eexists; eexists. split; [vm_compute; reflexivity|]. split; [vm_compute; reflexivity|].
+  repeat split; try reflexivity. discriminate.
+Qed.
+
+(* 3. a FLOAT literal whose decimal text has no fraction comes back typed INT *)
+Example float_retyped_exact_refuted :
+  exists f f', parse_text txt_float_literal = OOk f /\ reparse (OOk f) = OOk f' /\
+               map av_value (f_avs f) = [AVFloat 5] /\ map av_value (f_avs f') = [AVInt 5%Z].
+Proof.
+  eexists; eexists. split; [vm_compute; reflexivity|]. split; [vm_compute; reflexivity|]. split; reflexivity.
+Qed.
